@@ -131,6 +131,9 @@ package txwatcher
 //@ requires @C20,in:safetyLimit confirmed-only-when-deep: err == nil ==> (ghost.lookupOK && mi(uint32(ghost.tipH)) - mi(ghost.firstSeen) + 1 >= mi(recv.requiredConfs))
 //@ requires @C20,in:safetyLimit confirmed-only-in-window: err == nil ==> mi(lastrecv(newBlock)) < mi(startingHeight) + mi(safetyLimit)
 //@ requires @C20,in:safetyLimit once: !ghost.reported
+// a failure is reported only once the window has closed, when the lookup failed, or
+// when the transaction was first seen beyond the window
+//@ requires @C20,in:safetyLimit failure-only-for-a-reason: (err != nil && err != ErrContextCanceled) ==> (mi(lastrecv(newBlock)) >= mi(startingHeight) + mi(safetyLimit) || !ghost.lookupOK || mi(ghost.firstSeen) > mi(startingHeight) + mi(safetyLimit))
 //@ sets ghost.reported = (old(ghost.reported) || err != ErrContextCanceled)
 //@ sets ghost.cancelSeen = (old(ghost.cancelSeen) || err == ErrContextCanceled)
 //@ assigns nothing
